@@ -13,6 +13,7 @@ import ClaripyProofs.Lemmas.VSA.MeetFinal
 import ClaripyProofs.Lemmas.VSA.MulTop
 import ClaripyProofs.Lemmas.VSA.ModSound
 import ClaripyProofs.Lemmas.VSA.AlignedConcat
+import ClaripyProofs.Lemmas.VSA.ModFull4
 /-!
 # C21 — strided-interval transfer functions are sound
 
@@ -341,23 +342,44 @@ example : alignedNormal (SI.new 4 3 13 6) (SI.new 4 2 1 7) ∧ (SI.new 4 3 13 6)
     (∃ r, (SI.new 4 3 13 6).mul (SI.new 4 2 1 7) = .ok r ∧ r.mem (Conc.mul 4 3 5) ∧ r.mem (Conc.mul 4 13 7)) := by
   refine ⟨by unfold alignedNormal; decide, by decide, by decide, ⟨_, rfl, by decide, by decide⟩⟩
 
-/-! ## mod (unsigned remainder) — through `udiv` of the pieces, `mul` and `sub`; divisor aligned -/
+/-! ## mod (unsigned remainder) — through `udiv` of the pieces, `mul` and `sub`; any divisor -/
 
 /-- full statement: `__mod__` is sound for all well-formed operands (division by zero exempt: claripy raises there) -/
 def C21_mod_full : Prop :=
   ∀ (a b r : SI) (x y : Nat), a.WF → b.WF → a.bits = b.bits → a.mem x → b.mem y → y ≠ 0 → a.mod b = .ok r →
     r.mem (Conc.urem a.bits x y)
 
-/-- PARTIAL: `__mod__` is sound and closed when the DIVISOR IS ALIGNED.  Per pair of non-wrapping pieces either the quotients
-are one value `k` and the remainder is `p - k*t` (`mul` on `{k}` and the divisor's piece — `mul_sound` needs that piece
-aligned), or the remainder is below the divisor's upper bound.  Missing for `C21_mod_full`: the case of a divisor whose upper
-bound is not a member (it needs `{k} * t` for an unaligned piece `t`; exhaustive search at widths ≤ 3 and 300 k sampled pairs
-at width 4 on the real code found no counterexample, so the full statement is probably true). -/
-theorem C21_mod_sound_partial (a b r : SI) (ha : a.WF) (hb : b.WF) (hbits : a.bits = b.bits) (hab : a.bottom = false)
-    (hbb : b.bottom = false) (hal : b.Aligned) (h : a.mod b = .ok r) :
+/-- **`__mod__` is sound and closed for EVERY divisor**, aligned or not (`Lemmas/VSA/ModFull{1,2,3,4}.lean`).  Per pair of
+non-wrapping pieces either the quotients are one value `k` and the remainder is `p - k*t` (`mul` on `{k}` and the divisor's
+piece), or the remainder is below the divisor's upper bound.  For an aligned piece `t` the general `mul_sound` applies; for an
+unaligned one: `k·t.ub ≤ p.lb` (no overflow) and a non-zero member below `t.ub` force `k < 2^(w-1)`, the unsigned and the signed
+partial product of `{k}` with a piece `t'` of `t` are then the SAME interval `(k·stride)[k·lb, k·ub]` (`umul_single_eq`,
+`smul_single_eq`), and the meet of a non-wrapping interval with itself keeps every member whether it is aligned or not
+(`multiMeet_self`, through `meet_call`: `_is_surrounded` branch, first common member = lower bound); all partial results are well
+formed whatever the alignment (`multiMeet_WF`, `umul_single_WF`, `smul_single_WF`). -/
+theorem C21_mod_sound (a b r : SI) (ha : a.WF) (hb : b.WF) (hbits : a.bits = b.bits) (hab : a.bottom = false)
+    (hbb : b.bottom = false) (h : a.mod b = .ok r) :
     (r.WF ∧ r.bits = a.bits) ∧ ∀ x y, a.mem x → b.mem y → y ≠ 0 → r.mem (Conc.urem a.bits x y) :=
-  let g := mod_sound a.bits a b r ⟨ha, rfl⟩ ⟨hb, hbits.symm⟩ hab hbb hal h
+  let g := mod_sound_full a.bits a b r ⟨ha, rfl⟩ ⟨hb, hbits.symm⟩ hab hbb h
   ⟨g.1.1, g.2⟩
+
+/-- the full statement holds -/
+theorem C21_mod_full_holds : C21_mod_full := by
+  intro a b r x y ha hb hbits hx hy hy0 h
+  exact (C21_mod_sound a b r ha hb hbits hx.1 hy.1 h).2 x y hx hy hy0
+
+/-- (the earlier partial result: divisor aligned — now a special case of `C21_mod_sound`) -/
+theorem C21_mod_sound_partial (a b r : SI) (ha : a.WF) (hb : b.WF) (hbits : a.bits = b.bits) (hab : a.bottom = false)
+    (hbb : b.bottom = false) (_hal : b.Aligned) (h : a.mod b = .ok r) :
+    (r.WF ∧ r.bits = a.bits) ∧ ∀ x y, a.mem x → b.mem y → y ≠ 0 → r.mem (Conc.urem a.bits x y) :=
+  C21_mod_sound a b r ha hb hbits hab hbb h
+
+/-- non-vacuity: an UNALIGNED divisor `3[2,7]` (= {2, 5}) at 4 bits -/
+example : ¬ ({ bits := 4, stride := 3, lb := 2, ub := 7 } : SI).Aligned ∧ (SI.new 4 3 13 6).mem 3 ∧
+    ({ bits := 4, stride := 3, lb := 2, ub := 7 } : SI).mem 5 ∧
+    (∃ r, (SI.new 4 3 13 6).mod { bits := 4, stride := 3, lb := 2, ub := 7 } = .ok r ∧ r.mem (Conc.urem 4 3 5) ∧
+      r.mem (Conc.urem 4 13 2)) := by
+  refine ⟨by decide, by decide, by decide, ⟨_, rfl, by decide, by decide⟩⟩
 
 /-- non-vacuity: a wrapping dividend, a divisor interval -/
 example : (SI.new 4 3 13 6).mem 3 ∧ (SI.new 4 2 3 7).mem 5 ∧ (SI.new 4 2 3 7).Aligned ∧
